@@ -1,6 +1,7 @@
 import Driver.Proto
 import PqModel.AsyncTrace
 import PqModel.RowGroupProto
+import PqModel.LazyInit
 
 /-! Ops for C15: trace validation of the async page reader against `PqModel.Async`.
 
@@ -27,7 +28,14 @@ import PqModel.RowGroupProto
        -> `ok <state after each event, '|' separated> file=<rows of each row group of the MIRROR>
           spec=<rows of each row group of the SPEC> readable=<0|1>`; a state is
           `g<row groups>;<own>;<rg 0>;<rg 1>...`, a row group writer is
-          `<await 0|1>.<ordinal>.<buffered rows>.<rows in sealed pages>.<sealed pages>` -/
+          `<await 0|1>.<ordinal>.<buffered rows>.<rows in sealed pages>.<sealed pages>`
+
+    `once.run <wait 0|1> <k> <v> <acts>`: the once-guarded lazy load (`PqModel.OnceLoad`), k callers,
+       loaded content v. Acts: `e<i>` caller i reaches the guard, `f<i>` the loader of caller i
+       completes, `p<i>` caller i reads the variables and answers.
+       -> `ok <outcome per act> loads=<n>`; outcomes: `load` (entered the loader), `pass` (went past the
+          guard), `blocked` (waits inside once.Do; the state is unchanged), `ok`, `r<v>` / `rnil` (answered
+          from the loaded content / from the zero values), `bad` (not enabled) -/
 namespace Driver.Ops.C15
 open Driver PqModel.Async
 
@@ -122,8 +130,21 @@ def states (restore : Bool) : W Nat → List (Ev Nat) → List String
 
 end Rgp
 
+def parseAct? (s : String) : Option PqModel.OnceLoad.Act :=
+  match s.toList with
+  | 'e' :: r => (String.ofList r).toNat?.map .enter
+  | 'f' :: r => (String.ofList r).toNat?.map .finish
+  | 'p' :: r => (String.ofList r).toNat?.map .probe
+  | _ => none
+
 def handle (toks : List String) : Option String :=
   match toks with
+  | ["once.run", wait, k, v, acts] => some <|
+    match parseNat? k, parseNat? v, parseList? parseAct? acts with
+    | some k, some v, some as =>
+      let r := PqModel.OnceLoad.runActs (wait == "1") v (PqModel.OnceLoad.init k) as
+      s!"ok {showList id r.1} loads={r.2.loads}"
+    | _, _, _ => "bad-op"
   | ["rgproto.run", restore, evs] => some <|
     match parseList? Rgp.parseEv? evs with
     | some es =>
